@@ -58,6 +58,19 @@ recorded through a subclass (task keyword arguments, every conversion call), com
 configuration `Preset.cfg` and judged directly (task receives the max_samples passed, conversion once per result and with the
 iteration's overrides, result types and sample counts, truthful final status, cancel before the run stops a strong simulation).
 
+Exception types and argument values (round 3).  The task's exception is drawn from a table of 35 classes (`EXC_CLASSES`: the
+builtin `Exception` types a task body plausibly raises — TypeError, LookupError, StopIteration, OSError, Warning … — and
+harness-defined subclasses): the model treats the class as an opaque number, so a wrapper that handles ONE type specially
+(a retry on TypeError enters the task a second time: the controlled task's second entry returns at once with a recognisable
+value and is counted) shows as ran-twice / final-status-wrong / sync-returns-after-raise / results-after-raise;
+`exception_scenarios` raises every class in sync / async / instant mode.  Argument VALUES are `None`, integers (0 included)
+and coded non-integer objects (`VALUE_OBJECTS`: 0.0, False, '', [], (), {}, b'' — falsy but not None — and True, '0', [0]),
+used for presets, positional and keyword arguments, the trailing max_samples and the iterations' overrides: the routing must
+look at `None` only (Lean: handle_params_blind_to_values).  The direct oracle refuses an accepted FIRST call whose keyword
+names a parameter FIXED by a preset or by a positional argument of the same call (`unusable_keywords`; Lean:
+fixed_preset_keyword_is_rejected); `fixed_preset_scenarios` runs every falsy value x task preset / conversion preset /
+positional max_samples x sync/async.
+
 Named residue: the atomic steps are whole API calls and whole task steps.  Races *inside* one Python API
 call other than the two forced schedules above (bytecode interleavings on the shared JobStatus, e.g. a status query
 between `start_run()` and `Thread.start()` in `execute_async`, a worker that ends between two statements of
@@ -111,11 +124,76 @@ class TaskFailure(Exception):
     pass
 
 
-EXC_CLASSES = [ValueError, RuntimeError, KeyError, ZeroDivisionError, TaskFailure, AssertionError, AttributeError]
+class TaskTypeError(TypeError):
+    pass
+
+
+class TaskLookupFailure(LookupError):
+    pass
+
+
+# The exception the task leaves with.  The model treats the class as an opaque number (`tRaise cls text`): the job must
+# behave the same whatever the type is — entered once, ERROR, '<type>: <message>' — so the table holds the builtin
+# `Exception` types a task body plausibly raises (a wrapper that treats ONE of them specially — retries on TypeError,
+# reads LookupError/StopIteration as "no result", swallows a Warning — is seen), and harness-defined subclasses.
+# Index = the model's number: append only (corpus entries and Model/C18Ext refer to the indices 0..6).
+EXC_CLASSES = [ValueError, RuntimeError, KeyError, ZeroDivisionError, TaskFailure, AssertionError, AttributeError,
+               TypeError, IndexError, LookupError, StopIteration, OSError, NotImplementedError, ArithmeticError,
+               OverflowError, TimeoutError, UnicodeError, EOFError, ImportError, MemoryError, RecursionError,
+               NameError, BufferError, ConnectionError, FileNotFoundError, PermissionError, StopAsyncIteration,
+               FloatingPointError, ReferenceError, SyntaxError, UserWarning, DeprecationWarning, Exception,
+               TaskTypeError, TaskLookupFailure]
 EXC_TEXTS = ["", "boom", "bad value: 3", "User has canceled the job", "None", "Cancel requested",
-             "'bool' object has no attribute 'get'"]
-N_RAND_CLS, N_RAND_TXT = 6, 5     # what random histories draw from; the rest belongs to the cooperative task
-                                  # (Model/C18Ext: clsRuntime/txtCancelRequested = 1/5, clsAttribute/txtNoGet = 6/6)
+             "'bool' object has no attribute 'get'", "unsupported operand type(s) for //: 'int' and 'NoneType'",
+             "task() got an unexpected keyword argument 'progress_callback'"]
+# (Model/C18Ext: clsRuntime/txtCancelRequested = 1/5, clsAttribute/txtNoGet = 6/6 are what the cooperative task raises;
+# for the plain machine they are numbers like the others, random histories draw from the whole tables)
+
+
+def rand_raise(rng):
+    """a task exception: half of the time one of the first six classes (the most ordinary ones), else any of the table"""
+    cls = rng.randrange(6) if rng.random() < 0.5 else rng.randrange(len(EXC_CLASSES))
+    return {"e": "raise", "cls": cls, "msg": rng.randrange(len(EXC_TEXTS))}
+
+
+# ARGUMENT VALUES.  The model's value is `Option Nat`; the numbers below stand for Python objects that are FALSY but not
+# None (and a few truthy non-integers for contrast); every other number is the integer itself (0 is the integer 0).
+# `_handle_params` / `_get_results` must treat them like any other value: only `None` marks an open slot
+# (Lean: handle_params_blind_to_values, fixed_preset_keyword_is_rejected, override_spec).
+VALUE_OBJECTS = {90: 0.0, 91: False, 92: "", 93: [], 94: (), 95: {}, 96: b"", 97: True, 98: "0", 99: [0]}
+FALSY_VALUES = [0, 90, 91, 92, 93, 94, 95, 96]
+
+
+def enc_val(v):
+    """model value -> Python object (a fresh one each time: some are mutable)"""
+    if v is None or v not in VALUE_OBJECTS:
+        return v
+    return copy.deepcopy(VALUE_OBJECTS[v])
+
+
+def dec_val(obj):
+    """Python object -> model value (strict about the type: False is not 0, 0.0 is not 0); anything else is shown"""
+    if obj is None:
+        return None
+    for code, o in VALUE_OBJECTS.items():
+        if type(obj) is type(o) and obj == o:
+            return code
+    if type(obj) is int and obj not in VALUE_OBJECTS:
+        return obj
+    return {"other": repr(obj)[:60]}
+
+
+def is_falsy(v):
+    return v in FALSY_VALUES
+
+
+def rand_value(rng, pfalsy=0.25):
+    r = rng.random()
+    if r < pfalsy:
+        return rng.choice(FALSY_VALUES)
+    if r < pfalsy + 0.05:
+        return rng.choice([97, 98, 99])
+    return rng.randint(1, 9)
 
 # what a user progress callback returns (model: `Reply`), several Python objects per class
 REPLY_OBJECTS = {
@@ -174,11 +252,11 @@ class Abort(BaseException):
 
 
 def py_dict(d):
-    return {key_name(k): v for k, v in d}
+    return {key_name(k): enc_val(v) for k, v in d}
 
 
 def canon_dict(d: dict):
-    return sorted([[key_id(k), v] for k, v in d.items()], key=lambda e: (isinstance(e[0], str), e[0]))
+    return sorted([[key_id(k), dec_val(v)] for k, v in d.items()], key=lambda e: (isinstance(e[0], str), e[0]))
 
 
 def norm_dict(d):
@@ -219,7 +297,7 @@ def py_ret(r):
     if t == "none":
         return None
     if t == "plain":
-        return [r["n"]]
+        return [r["n"]] if r["n"] else []      # plain 0 = the empty list: a FALSY result that is not None
     if t == "dict":
         return {"results": py_val(r["v"]), "physical_perf": 1}
     return {"results_list": [{"iteration": py_dict(it), "results": py_val(v)} for it, v in r["l"]]}
@@ -238,7 +316,9 @@ def canon_val(v):
 def canon_ret(r):
     if r is None:
         return {"t": "none"}
-    if isinstance(r, list) and len(r) == 1 and isinstance(r[0], int):
+    if isinstance(r, list) and len(r) == 0:
+        return {"t": "plain", "n": 0}
+    if isinstance(r, list) and len(r) == 1 and isinstance(r[0], int) and r[0] != 0:
         return {"t": "plain", "n": r[0]}
     if isinstance(r, dict) and "results" in r:
         return {"t": "dict", "v": canon_val(r["results"])}
@@ -450,7 +530,7 @@ class Runner:
 
     # ---- caller actions (either thread) ------------------------------------------------------
     def call_args(self, ev):
-        args = list(ev["args"])
+        args = [enc_val(a) for a in ev["args"]]
         kw = py_dict(ev["kw"])
         if ev["cbkw"]:
             kw["progress_callback"] = self.cb2
@@ -910,6 +990,18 @@ def direct_oracle(cfg, word, outs, final, hung):
                         f"{len(cfg['names'])} positional parameter(s) {[key_name(x) for x in cfg['names']]} (+ one trailing "
                         f"max_samples): the {surplus} surplus argument(s) were not rejected, the call was accepted"
                         + (" and the task was started" if final["fnCalls"] else ""))
+                if n_exec == 1:
+                    # a keyword argument can only fill a slot left OPEN (None); one that names a parameter whose value
+                    # is FIXED — by a preset, whatever the fixed value is, or by a positional argument of this call —
+                    # is an argument the job cannot use: the call must be refused
+                    fixed_kw = unusable_keywords(cfg, ev)
+                    if fixed_kw:
+                        return "fixed-parameter-overridden", (
+                            f"execute_{k}(positional {ev['args']}, keyword {ev['kw']}) was accepted although "
+                            + "; ".join(f"{key_name(kk)!r} is fixed to {show_val(vv)} by {by}" for kk, vv, by in fixed_kw)
+                            + " — only a parameter preset to None can be filled by keyword; the call must be refused with "
+                            "'Unused parameters' / 'passed twice', the task not started and the job left WAITING"
+                            + (" (the task was started)" if final["fnCalls"] else ""))
             if accepted is not None and o["o"] != "exc":
                 return "executed-twice", "a second execute call was accepted"
             if o["o"] == "accepted":
@@ -960,6 +1052,10 @@ def direct_oracle(cfg, word, outs, final, hung):
                                                    "with RuntimeError 'still running'")
             if ended is None and o["o"] == "results":
                 return "results-while-running", "get_results() returned a value although the task has not returned"
+            if o["o"] == "results" and ended in ("raise", "propagate") and o["r"] != {"t": "none"}:
+                return "results-after-raise", (f"the task raised, yet get_results() returned the value {o['r']}"
+                                               + (f" (the task function was entered {final['fnCalls']} times)"
+                                                  if final["fnCalls"] != 1 else ""))
             if o["o"] == "results":
                 if last_get is not None and last_get != o["r"]:
                     return "results-not-idempotent", f"get_results() returned {last_get} then {o['r']}"
@@ -996,6 +1092,14 @@ def direct_oracle(cfg, word, outs, final, hung):
                     ret_value = ev["r"]
                 if k == "raise":
                     exc_text = [ev["cls"], ev["msg"]]
+                # (without a conversion function execute_sync hands out the untouched `_results`, None, after a raise:
+                # no value of the task — modelled as it is, not judged)
+                if accepted == "sync" and k == "raise" and o["sync"] is not None and \
+                        o["sync"].get("val", {"t": "none"}) != {"t": "none"}:
+                    return "sync-returns-after-raise", (
+                        f"the task raised {EXC_CLASSES[ev['cls']].__name__}({EXC_TEXTS[ev['msg']]!r}) but execute_sync "
+                        f"returned {o['sync']['val']} instead of failing"
+                        + (f" (the task function was entered {final['fnCalls']} times)" if final["fnCalls"] != 1 else ""))
                 if accepted == "sync" and k == "ret" and not cancel_before_end:
                     want = expected_results(cfg, ret_value, route)
                     got = o["sync"]
@@ -1029,6 +1133,34 @@ def expected_results(cfg, ret, route=None):
         itd = {a: b for a, b in it}
         out.append([norm_dict(it), {"m": norm_val(v), "kw": norm_dict([[a, itd.get(a, b)] for a, b in mp.items()])}])
     return [{"t": "dlist", "l": out}]
+
+
+def show_val(v):
+    return repr(enc_val(v))
+
+
+def unusable_keywords(cfg, ev):
+    """For the FIRST execute call on a fresh job: the keyword arguments that name a parameter whose value is already
+    fixed when the keywords are looked at — [(key, fixed value, fixed by what)] — read off the documented contract
+    (positional arguments go to the declared names, one further positional is max_samples, a keyword fills a parameter
+    preset to None: task first, then conversion), independently of the Lean model.  A keyword naming nothing the job
+    has a slot for is not listed here (that is the `unknown` clause)."""
+    names = cfg["names"]
+    args = list(ev["args"])
+    if len(args) > len(names) + 1:
+        return []
+    cmd = {a: (b, "the preset") for a, b in cfg["cmd"]}
+    mp = {a: (b, "the preset") for a, b in cfg["mapping"]}
+    if len(args) > len(names):
+        mp[0] = (args.pop(), "the trailing positional argument of the call")
+    for n_, a in zip(names, args):
+        cmd[n_] = (a, "a positional argument of the call")
+    out = []
+    for kk, _ in ev["kw"]:
+        slots = [d[kk] for d in (cmd, mp) if kk in d]
+        if slots and all(v is not None for v, _ in slots):
+            out.append((kk, slots[0][0], slots[0][1]))
+    return out
 
 
 def word_call(word):
@@ -1426,7 +1558,7 @@ def is_closed(final):
 def rand_dict(rng, keys_, pnone=0.4):
     ks = [k for k in keys_ if rng.random() < 0.5]
     rng.shuffle(ks)
-    return [[k, (None if rng.random() < pnone else rng.randint(1, 9))] for k in ks]
+    return [[k, (None if rng.random() < pnone else rand_value(rng))] for k in ks]
 
 
 def rand_cfg(rng):
@@ -1437,29 +1569,42 @@ def rand_cfg(rng):
 
 def rand_call(rng, cfg, mode, malformed):
     """`malformed`: False | True (flavour drawn here) | "kw" (undeclared/duplicate keywords) | "surplus" (2..4
-    positional arguments beyond the declared names, otherwise a legal call) | "both"."""
+    positional arguments beyond the declared names, otherwise a legal call) | "both" | "fixed" (a keyword naming a
+    parameter whose value a preset FIXES — preferably one that fixes a falsy value —, otherwise a legal call)."""
     names = cfg["names"]
+    fixed = [k for k, v in cfg["cmd"] + cfg["mapping"] if v is not None
+             and not any(k2 == k and v2 is None for k2, v2 in cfg["cmd"] + cfg["mapping"])]
     if malformed is True:
-        malformed = rng.choice(["kw", "kw", "surplus", "surplus", "both"])
+        malformed = rng.choice(["kw", "kw", "surplus", "surplus", "both"] + (["fixed"] * 3 if fixed else []))
+    elif not malformed and fixed and rng.random() < 0.06:
+        malformed = "fixed"
+    if malformed == "fixed" and not fixed:
+        malformed = "kw"
     if malformed in ("surplus", "both"):
         nargs = len(names) + rng.randint(2, 4)
     else:
         nargs = rng.randint(0, len(names) + (2 if malformed else 1))
     if not malformed and rng.random() < 0.7:
         nargs = min(nargs, len(names))
-    args = [(None if rng.random() < 0.15 else rng.randint(1, 9)) for _ in range(nargs)]
+    if malformed == "fixed":
+        nargs = min(nargs, len(names))
+    args = [(None if rng.random() < 0.15 else rand_value(rng)) for _ in range(nargs)]
     fillable = [k for k, v in cfg["cmd"] if v is None] + [k for k, v in cfg["mapping"] if v is None]
     kw_keys = [k for k in dict.fromkeys(fillable) if rng.random() < 0.6]
     if malformed == "surplus":
         kw_keys = [k for k in kw_keys if k not in names]      # nothing but the surplus is wrong with the call
+    elif malformed == "fixed":
+        kw_keys = [k for k in kw_keys if k not in names[:nargs]]   # nothing but the fixed parameter is wrong
+        falsy = [k for k in fixed if any(k2 == k and is_falsy(v2) for k2, v2 in cfg["cmd"] + cfg["mapping"])]
+        kw_keys.append(rng.choice(falsy if (falsy and rng.random() < 0.7) else fixed))
     elif malformed:
         kw_keys += rng.sample([1, 2, 3, 4, 5, 6, 7, 0], rng.randint(1, 2))
     elif rng.random() < 0.1:
         kw_keys += [rng.choice([6, 7])]
     kw_keys = list(dict.fromkeys(kw_keys))
     rng.shuffle(kw_keys)
-    kw = [[k, (None if rng.random() < 0.1 else rng.randint(1, 9))] for k in kw_keys]
-    pcb = 0.04 if malformed in (False, "surplus") else 0.3
+    kw = [[k, (None if rng.random() < 0.1 else rand_value(rng))] for k in kw_keys]
+    pcb = 0.04 if malformed in (False, "surplus", "fixed") else 0.3
     return call(args=args, kw=kw, cbkw=(rng.random() < pcb), e=mode)
 
 
@@ -1489,7 +1634,7 @@ def rand_word(chk, rng, cfg, max_len, malformed, mode=None):
             r = rng.random()
             if closing:
                 a = rng.choice([{"e": "start"}, {"e": "ret", "r": rand_ret(rng)},
-                                {"e": "raise", "cls": rng.randrange(N_RAND_CLS), "msg": rng.randrange(N_RAND_TXT)}])
+                                rand_raise(rng)])
             elif r < 0.16:
                 a = rand_call(rng, cfg, mode if rng.random() < 0.85 else rng.choice(["sync", "async"]),
                               malformed and rng.random() < 0.7)
@@ -1510,7 +1655,7 @@ def rand_word(chk, rng, cfg, max_len, malformed, mode=None):
             elif r < 0.90:
                 a = {"e": "ret", "r": rand_ret(rng)}
             elif r < 0.95:
-                a = {"e": "raise", "cls": rng.randrange(N_RAND_CLS), "msg": rng.randrange(N_RAND_TXT)}
+                a = rand_raise(rng)
             else:
                 a = {"e": "propagate"}
             if a["e"] in CALLER_KINDS:
@@ -1732,6 +1877,7 @@ def note_branches(chk, scn, rep):
     cfg = scn["cfg"]
     known = {k for k, _ in cfg["cmd"]} | {k for k, _ in cfg["mapping"]} | {0} | set(cfg["names"])
     instant_end = None       # index of the last event of an "instant" asynchronous segment
+    n_exec = 0               # execute calls made on the still WAITING job
     for pos, (ev, o) in enumerate(zip(word, mouts)):
         k, oo = ev["e"], o["o"]
         if oo == "disabled":
@@ -1755,6 +1901,19 @@ def note_branches(chk, scn, rep):
         if k in ("sync", "async") and mode is None:
             surplus = len(ev["args"]) - len(cfg["names"]) - 1
             unknown_kw = any(kk not in known for kk, _ in ev["kw"])
+            n_exec += 1
+            if n_exec == 1:
+                for kk, vv, by in unusable_keywords(cfg, ev):
+                    if by == "the preset":
+                        chk.branch("fixed-preset-keyword")
+                        chk.count("fixed-preset-keyword", show_val(vv))
+                        if is_falsy(vv):
+                            chk.branch("fixed-falsy-preset-keyword")
+                            chk.branch(f"fixed-falsy-preset-keyword-{k}")
+                            chk.branch("fixed-falsy-task-preset-keyword" if any(a == kk for a, _ in cfg["cmd"])
+                                       else "fixed-falsy-conversion-preset-keyword")
+                    elif kk == 0 and by.startswith("the trailing"):
+                        chk.branch("max-samples-positional-and-keyword")
             if surplus > 0:
                 chk.branch("surplus-positional")
                 chk.branch(f"surplus-positional-{k}")
@@ -1792,6 +1951,14 @@ def note_branches(chk, scn, rep):
                     chk.branch("keyword")
                 if any(v is not None for _, v in scn["cfg"]["cmd"]):
                     chk.branch("preset")
+                if any(is_falsy(v) for _, v in scn["cfg"]["cmd"] + scn["cfg"]["mapping"]):
+                    chk.branch("falsy-preset-used")
+                if any(is_falsy(v) for v in ev["args"][:len(scn["cfg"]["names"])]):
+                    chk.branch("falsy-positional")
+                if len(ev["args"]) > len(scn["cfg"]["names"]) and is_falsy(ev["args"][-1]):
+                    chk.branch("falsy-max-samples")
+                if any(is_falsy(v) for _, v in ev["kw"]):
+                    chk.branch("falsy-keyword")
                 if len(ev["args"]) > len(scn["cfg"]["names"]):
                     chk.branch("max-samples-pop")
             elif o["e"] == "assertion":
@@ -1823,6 +1990,8 @@ def note_branches(chk, scn, rep):
         elif k == "raise":
             flight = False
             chk.branch("raise")
+            chk.branch(f"raise-{EXC_CLASSES[ev['cls']].__name__}")
+            chk.count("raise-class", EXC_CLASSES[ev["cls"]].__name__)
             chk.count("final", "ERROR")
         elif k == "propagate":
             flight = False
@@ -1830,8 +1999,15 @@ def note_branches(chk, scn, rep):
             chk.count("final", "ERROR")
         if oo == "results" and isinstance(o["r"].get("v"), dict):
             chk.branch("mapping-conversion")
+        if oo == "results" and o["r"] == {"t": "plain", "n": 0}:
+            chk.branch("falsy-result")
+        if oo == "finished" and o["sync"] is not None and o["sync"].get("val") == {"t": "plain", "n": 0}:
+            chk.branch("falsy-result-sync")
         if oo == "results" and o["r"]["t"] == "dlist":
             chk.branch("results-list")
+            if any(isinstance(v, dict) and any(is_falsy(b) for a, b in it if any(a == mk for mk, _ in v["kw"]))
+                   for it, v in o["r"]["l"]):
+                chk.branch("falsy-iteration-override")
     chk.count("length", len(word))
 
 
@@ -2676,6 +2852,62 @@ def argument_scenarios(chk, seen):
     chk.extra["argument_scenarios"] = n
 
 
+def fixed_preset_scenarios(chk, seen):
+    """A keyword argument naming a parameter whose value is FIXED must be refused whatever the fixed value is: for
+    sync/async x where the value is fixed (task preset, conversion preset, `max_samples` given positionally in the same
+    call) x the fixed value (an ordinary integer, every falsy non-None object of VALUE_OBJECTS, True) the history
+        execute(bad) ; status ; execute(good) ; start ; progress ; return ; status ; get_results ; get_results
+    is run; the good call passes FALSY values legally (positionally, by keyword into open slots, as max_samples) and the
+    task returns iterations that override the conversion arguments with falsy values: all of them must arrive."""
+    n = 0
+    for mode in ("sync", "async"):
+        for vi, val in enumerate([7] + FALSY_VALUES + [97]):
+            for target in ("cmd", "mapping", "max-samples"):
+                cfg = {"names": [1], "cmd": [[3, None], [4, val if target == "cmd" else 6]],
+                       "mapping": [[0, None], [5, None], [2, val if target == "mapping" else 3]], "map": True, "cb": True}
+                if target == "cmd":
+                    bad = call(args=[11], kw=[[4, 9]], e=mode)
+                elif target == "mapping":
+                    bad = call(args=[11], kw=[[3, 8], [2, 9]], e=mode)
+                else:
+                    bad = call(args=[11, val], kw=[[0, 9]], e=mode)
+                goods = [call(args=[FALSY_VALUES[vi % len(FALSY_VALUES)]], kw=[[3, FALSY_VALUES[(vi + 1) % len(FALSY_VALUES)]],
+                                                                             [5, FALSY_VALUES[(vi + 2) % len(FALSY_VALUES)]]], e=mode),
+                         call(args=[11, FALSY_VALUES[(vi + 3) % len(FALSY_VALUES)]], kw=[[5, 2]], e=mode)]
+                good = goods[(vi + len(target)) % 2]
+                ret = RET0 if (vi + len(target)) % 3 == 0 else \
+                    {"t": "dlist", "l": [[[[5, FALSY_VALUES[vi % len(FALSY_VALUES)]]], 1], [[], 2], [[[2, 0], [0, 91]], 3]]}
+                where = "cb" if vi % 2 else "main"
+                word = [bad, {"e": "status", "where": where}, good, {"e": "start"}, {"e": "prog", "p": 4},
+                        {"e": "ret", "r": ret}, {"e": "status"}, {"e": "get"}, {"e": "get"}]
+                chk.branch("fixed-preset-scenario")
+                handle(chk, {"cfg": cfg, "word": copy.deepcopy(word)}, seen)
+                n += 1
+    chk.extra["fixed_preset_scenarios"] = n
+
+
+def exception_scenarios(chk, seen):
+    """"Failed with the exception's type and message if the task raised", whatever the type: for every class of
+    EXC_CLASSES x sync / async lock-step / async instant, the task raises it from its body — at once, or after a progress
+    report the user's callback has seen —; the task must have been entered once, the callback must have seen the report
+    once, the job must be ERROR with '<type>: <message>', get_results() and execute_sync must fail."""
+    cfg = {"names": [1], "cmd": [], "mapping": [[2, 3]], "map": True, "cb": True}
+    tail = [{"e": "status"}, {"e": "get"}, {"e": "status"}, {"e": "get"}]
+    n = 0
+    for ci in range(len(EXC_CLASSES)):
+        for mi, mode in enumerate(("sync", "async", "instant")):
+            ex = call(args=[5], e="sync" if mode == "sync" else "async")
+            body = [{"e": "start"}] + ([] if (ci + mi) % 3 == 0 else [{"e": "prog", "p": 3}, {"e": "status", "where": "cb"}])
+            word = [ex] + body + [{"e": "raise", "cls": ci, "msg": (ci + mi) % len(EXC_TEXTS)}] + tail
+            scn = {"cfg": cfg, "word": copy.deepcopy(word)}
+            if mode == "instant":
+                scn["instant"] = True
+            chk.branch("exception-scenario")
+            handle(chk, scn, seen)
+            n += 1
+    chk.extra["exception_scenarios"] = n
+
+
 def load_corpus():
     out = []
     for p in sorted(glob.glob(os.path.join(core.VERIF, "corpus", "C18", "*.json"))):
@@ -2729,7 +2961,12 @@ def run(chk: core.Check):
                 "illegal call (2..4 surplus positionals, undeclared keyword, both, parameter passed twice) x 0..2 declared "
                 "names x sync/async followed by status, a legal call and a complete run; random part: longer words over "
                 "random configurations, argument lists (15% of the histories with malformed calls: undeclared keywords, "
-                "surplus positionals, or both) and return shapes; distinct = distinct "
+                "surplus positionals, a keyword naming a FIXED preset, or both) and return shapes; argument values = None, "
+                "integers incl. 0, coded falsy non-None objects (0.0, False, '', [], (), {}, b'') and truthy non-integers, for "
+                "presets, positional/keyword arguments, max_samples and iteration overrides; fixed-preset scenarios: every "
+                "falsy value x task preset / conversion preset / positional max_samples x sync/async with a keyword of the same "
+                "name; task exceptions drawn from 35 classes (builtin Exception types + subclasses), exception scenarios: "
+                "every class x sync / async / instant; distinct = distinct "
                 "(configuration, word); non-trivial = at least one caller action performed while the task is in flight; "
                 "EXTENDED alphabet (Model/C18Ext): job(...) = Job.__call__, job.name get/set (non-empty, empty, not a string), "
                 "progress reports whose user callback returns None / a dict with or without 'cancel_requested' / an object "
@@ -2746,6 +2983,13 @@ def run(chk: core.Check):
                              "surplus-positional", "surplus-positional-sync", "surplus-positional-async",
                              "surplus-positional-only", "unknown-keyword", "status-after-rejection",
                              "accepted-after-rejection", "argument-scenario",
+                             "fixed-preset-scenario", "fixed-preset-keyword", "fixed-falsy-preset-keyword",
+                             "fixed-falsy-preset-keyword-sync", "fixed-falsy-preset-keyword-async",
+                             "fixed-falsy-task-preset-keyword", "fixed-falsy-conversion-preset-keyword",
+                             "max-samples-positional-and-keyword", "falsy-preset-used", "falsy-positional",
+                             "falsy-max-samples", "falsy-keyword", "falsy-iteration-override",
+                             "falsy-result", "falsy-result-sync",
+                             "exception-scenario"] + [f"raise-{c.__name__}" for c in EXC_CLASSES] + [
                              "cancel-then-raise-sync", "cancel-then-raise-async",
                              "async-instant", "async-instant-raise", "async-instant-cancel-return",
                              "async-instant-cb-action", "instant-scenario",
@@ -2774,6 +3018,8 @@ def run(chk: core.Check):
     group_scenarios(chk, seen)
     plain_scenarios(chk, seen)
     argument_scenarios(chk, seen)
+    fixed_preset_scenarios(chk, seen)
+    exception_scenarios(chk, seen)
     instant_scenarios(chk, seen)
     extension_scenarios(chk, seen)
     coop_scenarios(chk, seen)
